@@ -63,12 +63,33 @@ def main(argv: list[str]) -> int:
             if r is not None:
                 ctx.oracle_fail(case, r[0], r[1])
     proofs = core.check_proofs(prop, tier == "thorough")
-    try:
-        mod.run(ctx)
-    except Exception:  # noqa: BLE001
-        traceback.print_exc()
-        print(f"{prop}: harness error (not a verdict)")
-        return 2
+    # An exception that escapes a property module is either a slip of a generator at this seed (then another seed gives a
+    # verdict) or the implementation behaving in a way the harness never saw on the unchanged tree (then it persists).
+    # Up to three derived seeds are tried; if all of them fail the property is no longer shown to hold.
+    errors = []
+    for attempt in range(3):
+        try:
+            mod.run(ctx)
+            break
+        except Exception:  # noqa: BLE001
+            tb = traceback.format_exc()
+            errors.append({"seed": ctx.seed, "traceback": tb[-3000:]})
+            print(f"{prop}: harness error at seed {ctx.seed} (attempt {attempt + 1}):\n{tb[-1500:]}", file=sys.stderr)
+            carried = (ctx.oracle_failures, ctx.disagreements)
+            ctx = core.Ctx(prop, tier, ctx.seed + 7919)
+            ctx.module = mod
+            ctx.oracle_failures, ctx.disagreements = carried
+    else:
+        ctx.extra["harness_errors"] = errors
+        path = core.write_replay(ctx, "harness", {
+            "no_longer_checks": f"the {prop} harness could not run to completion on this tree at three seeds "
+                                f"(correspondence and oracle of harness/props/{prop.lower()}.py)",
+            "errors": errors})
+        core.write_evidence(ctx, proofs, 1)
+        print(f"VIOLATION property={prop} replay={path} no-failing-input-found")
+        return 1
+    if errors:
+        ctx.extra["harness_errors_retried"] = errors
     return core.finish(ctx, proofs)
 
 
